@@ -2826,9 +2826,11 @@ impl<'de, 'e> de::Deserializer<'de> for YamlDeserializer<'de, 'e> {
                                 anchor,
                                 ..
                             } => {
+                                // The tag has selected the variant; the payload is the
+                                // scalar without it, read like the `5` of `Variant: 5`.
                                 vec![Ev::Scalar {
                                     value,
-                                    tag: SfTag::String,
+                                    tag: SfTag::None,
                                     raw_tag: None,
                                     style,
                                     location,
